@@ -296,6 +296,8 @@ const (
 	cJoinDerived
 	cScalarItem
 	cExcept
+	cDerivedFirstOfTwo
+	cDerivedThenJoin
 	nSelCtx       // contexts up to here produce a query and can be nested
 	cInsertSelect = iota - 1
 	cUpdateExists
@@ -305,7 +307,7 @@ const (
 	nCtx
 )
 
-var vxCtxNames = []string{"plain", "derived", "exists", "scalarcmp", "insub", "cte", "union", "joinderived", "scalaritem", "except",
+var vxCtxNames = []string{"plain", "derived", "exists", "scalarcmp", "insub", "cte", "union", "joinderived", "scalaritem", "except", "derivedfirstoftwo", "derivedthenjoin",
 	"insertselect", "updateexists", "deleteexists", "updatesetsub", "insertwith"}
 
 func (g *vxGen) ctx(c int, inner func()) {
@@ -384,6 +386,38 @@ func (g *vxGen) ctx(c int, inner func()) {
 		inner()
 		g.fix(")")
 		g.alias()
+		g.fix("ON")
+		g.col()
+		g.fix("=")
+		g.col()
+	case cDerivedFirstOfTwo:
+		g.fix("SELECT")
+		g.col()
+		g.fix("FROM")
+		g.fix("(")
+		inner()
+		g.fix(")")
+		g.alias()
+		g.fix(",")
+		g.table()
+		g.fix(",")
+		g.fix("(")
+		g.fix("SELECT")
+		g.col()
+		g.fix("FROM")
+		g.schemaTable()
+		g.fix(")")
+		g.alias()
+	case cDerivedThenJoin:
+		g.fix("SELECT")
+		g.col()
+		g.fix("FROM")
+		g.fix("(")
+		inner()
+		g.fix(")")
+		g.alias()
+		g.fix("JOIN")
+		g.table()
 		g.fix("ON")
 		g.col()
 		g.fix("=")
@@ -706,4 +740,56 @@ func VxC15_DML() {
 	g := &vxGen{}
 	g.dml(vx.Choice(nDML))
 	g.check()
+}
+
+// deep nesting: k levels of derived tables (k symbolic, up to the parser's own limit region), a
+// distinct table at every level, schema-qualified on even levels, one function and column per level
+func VxC15_Deep() {
+	k := vx.Choice(60)
+	g := &vxGen{}
+	for lvl := 0; lvl < k; lvl++ {
+		g.fix("SELECT")
+		g.fn("fa")
+		g.fix("(")
+		g.cols = append(g.cols, vxQN{"", "c" + vxItoa(lvl)})
+		g.toks = append(g.toks, token.Token{Type: vxIdentType, Literal: "c" + vxItoa(lvl)})
+		g.fix(")")
+		g.fix("FROM")
+		g.fix("(")
+	}
+	g.fix("SELECT")
+	g.cols = append(g.cols, vxQN{"", "cz"})
+	g.toks = append(g.toks, token.Token{Type: vxIdentType, Literal: "cz"})
+	g.fix("FROM")
+	g.tabs = append(g.tabs, vxQN{"", "tz"})
+	g.toks = append(g.toks, token.Token{Type: vxIdentType, Literal: "tz"})
+	for lvl := k - 1; lvl >= 0; lvl-- {
+		g.fix(")")
+		g.toks = append(g.toks, token.Token{Type: vxIdentType, Literal: "x" + vxItoa(lvl)})
+		// a sibling table at this level
+		g.fix(",")
+		name := "t" + vxItoa(lvl)
+		if lvl%2 == 0 {
+			g.fix("sa")
+			g.fix(".")
+			g.tabs = append(g.tabs, vxQN{"sa", name})
+		} else {
+			g.tabs = append(g.tabs, vxQN{"", name})
+		}
+		g.toks = append(g.toks, token.Token{Type: vxIdentType, Literal: name})
+	}
+	g.trail = append(g.trail, "deep["+vxItoa(k)+"]")
+	g.check()
+}
+
+func vxItoa(n int) string {
+	if n == 0 {
+		return "0"
+	}
+	s := ""
+	for n > 0 {
+		s = string(rune('0'+n%10)) + s
+		n /= 10
+	}
+	return s
 }
